@@ -463,7 +463,11 @@ func (g *gen) build(n int) {
 		g.emit("CLONEMUT 0 2")
 		g.emit("MARSHAL 0 %s", []string{"bin", "gob"}[g.r.intn(2)])
 		g.emit("WRITETO 0")
-		g.emit("MSGADDTO 0 1") // (*Message).AddTo: slot 1 takes slot 0's transaction id
+		// (*Message).AddTo(b), the Message as a setter for crafting responses: b takes m's transaction id, in the struct
+		// and on the wire, and m stays as it was. b starts with an id of its own.
+		g.emit("BUILD 1 type:%d:%d+tid:%s", g.r.intn(4096), g.r.intn(4), showHex(g.r.bytes(12)))
+		g.emit("MSGADDTO 0 1")
+		g.emit("DUMP 0")
 	}
 }
 
